@@ -14,11 +14,15 @@ SPEC = {
         "AM.CrashFS.rename_before_fsync_torn", "AM.CrashFS.no_fsync_torn", "AM.CrashFS.in_place_torn",
         "AM.CrashFS.never_refuses_own_file_partial", "AM.CrashFS.never_refuses_first_snapshot",
         "AM.CrashFS.oversize_record_refused", "AM.CrashFS.restart_keeps_muting_and_dedup",
+        "AM.CrashFS.snapshot_loads_one_state", "AM.CrashFS.streaming_snapshot_mixed",
     ],
     "engines": [
         {"name": "snapshot", "pkg": "./snapshot", "search_cases": 200, "timeout_quick": 300, "timeout_thorough": 900},
         # "so silences keep muting ... after a restart": the mute verdict after snapshot reload is C02's engine
         {"name": "silencer", "pkg": "./silencer", "search_cases": 6000, "quick_cases": 1200},
+        # the CONTENT of a snapshot written while the store is being edited (real goroutines, real time): op snaprace only
+        {"name": "mutesrace", "pkg": "./mutesrace", "search_cases": 60, "timeout_quick": 300, "env": {"VERIF_MUTESRACE_OPS": "snaprace"},
+         "only": ["snapshot_loads_one_state"]},
     ],
     "rule": "real nflog.Log and silence.Silences: (a) generated stores (0..200 records quick, ..5000 thorough; shapes mix/min/multi/big, "
             "contents through Merge and through the write APIs Log/Set) -> Snapshot or real Maintenance -> load through SnapshotReader/SnapshotFile "
